@@ -18,9 +18,14 @@ JOBS += [
 # with stale slots (recycled descriptor) makes it call destructors with values the thread never stored.  Leaf/node
 # allocation and the store/load path are checked in the C10 tree jobs, imported here (bounded: counted apart).
 from units import c10 as _c10
-JOBS = list(JOBS) + [j for j in _c10.JOBS if j.name in ("c10.tree.get.bounded", "c10.tree.set.bounded", "c10.tree.init",
+JOBS = list(JOBS) + [j for j in _c10.JOBS if j.name in ("c10.tree.get.bounded", "c10.tree.set.bounded", "c10.tree.init", "c10.tree.set_then_walk.bounded",
                                                           # which destructor belongs to a key: the key table (a destructor is written into a cell only by its owner)
                                                           "c10.ka.init", "c10.ka.alloc.bounded", "c10.ka.dealloc.bounded", "c10.ka.alloc.rg.bounded", "c10.ka.dealloc.rg.bounded")]
+# "on every way a thread ends": return (child-first / parent-first), myth_exit, cancellation -- each reaches the common exit
+# path once (C01 jobs), and that path runs the destructor walk exactly once before the stack is released (c12.cleanup)
+import importlib as _il
+JOBS = list(JOBS) + [j for j in _il.import_module("units.c01").JOBS if j.name in ("c01.create", "c01.entry_point", "c01.exit", "c01.testcancel")]
+JOBS = list(JOBS) + [j for j in _il.import_module("units.c12").JOBS if j.name in ("c12.cleanup",)]
 META = {
  "level": "proof",
  "level_text": "Inductive contract proof (--enforce-contract-rec) of the real recursive destructor walk and node release for an arbitrary tree level, any witness key, any destructor table and values; the top-level myth_tls_tree_fini is checked against those contracts. ",
